@@ -557,7 +557,7 @@ def r176(ctx, repo):
     ctx.ob("R17.6", ok, "both deques have the same maxlen expression" if ok
            else f"deque bounds differ: {dq}", node=init,
            label="deques same maxlen")
-    gi = repo.func(CO, "LazyContourList.__getitem__")
+    gi = inline_helpers(repo, CO, repo.func(CO, "LazyContourList.__getitem__"))
     names = list(dq)
     apps = {a: [c for c in find_calls(gi, attr="append")
                 if is_self_attr(c.func.value, a)] for a in names}
